@@ -14,9 +14,9 @@ import (
 	"net"
 	"net/http"
 	"os"
-	"time"
 	"strings"
 	"testing"
+	"time"
 
 	"pgregory.net/rapid"
 
@@ -480,6 +480,14 @@ func checkCase(c Case) (out evid.Outcome) {
 			}
 			out.NonTrivial = true
 			out.Classes = append(out.Classes, "head")
+			continue
+		}
+		if want.panicked == "badcode" {
+			// what happens to a status code the underlying writer would reject is
+			// not specified (the wrapper may as well answer 500 itself without any
+			// panic): only the status is checked
+			out.NonTrivial = true
+			out.Classes = append(out.Classes, "kind:badcode")
 			continue
 		}
 		// "panic detail appears in the body only in development mode": the
